@@ -39,6 +39,7 @@ class Trace:
 
     def __init__(self):
         self.snap = {}      # id(animal) -> dict of scalar attributes at append_month_zero
+        self.animals = []   # the species in the order main() loops over them (available even if the run raises)
         self.country = None
         self.feed_calls = []  # dicts in call order
 
@@ -52,6 +53,7 @@ class Trace:
 
         def zero(self_):
             tr.snap[id(self_)] = {k: v for k, v in vars(self_).items() if not isinstance(v, (list, dict))}
+            tr.animals.append(self_)
             return o_zero(self_)
 
         def desp(self_):
@@ -59,7 +61,10 @@ class Trace:
             return o_desp(self_)
 
         def feed(self_, grass_input, feed_input, is_ruminant=False):
-            rec = {"animal": self_.animal_type, "rum": bool(is_ruminant), "need": float(self_.NE_balance.kcals),
+            # a real herd is a ruminant or not by its own digestion type, whatever flag the caller passes
+            dig = getattr(self_, "digestion_type", None)
+            rec = {"animal": self_.animal_type, "rum": (dig == "ruminant") if dig is not None else bool(is_ruminant),
+                   "rumArg": bool(is_ruminant), "need": float(self_.NE_balance.kcals),
                    "pop": float(self_.current_population), "grassIn": float(grass_input.kcals), "feedIn": float(feed_input.kcals),
                    "effG": float(self_.digestion_efficiency["grass"]), "effF": float(self_.digestion_efficiency["feed"])}
             out = o_feed(self_, grass_input, feed_input, is_ruminant)
@@ -319,9 +324,10 @@ def meat_dict(rng):
 def probe(ctx, code, scenario, md=None):
     """species parameters of a country before any month is run (one throw-away month of zero supply)"""
     res = run_main(ctx, code, [0.0], [0.0], scenario, md)
-    if res["error"]:
+    animals = res["animals"] if res["animals"] is not None else res["trace"].animals
+    if not animals:
         return None, res
-    return [species_params(a, res["trace"].snap) for a in res["animals"]], res
+    return [species_params(a, res["trace"].snap) for a in animals], res
 
 
 def nextafter(x, up):
@@ -533,16 +539,12 @@ def main_case(ctx, case, prop, compare=True):
     tr = res["trace"]
     short = {k: case[k] for k in ("code", "scenario", "kf", "kg") if k in case}
     short["months"] = n
-    if res["animals"] is None and not tr.snap:
+    if res["animals"] is None and not tr.animals:
         ctx.count("main:setup-error:" + str(res["error"]).split(":")[0])
         ctx.violation("main-setup-fails", "main() failed before the month loop for %s/%s: %s" % (code, sc, res["error"]), case)
         return {"error": res["error"]}
-    if res["animals"] is not None:
-        params = [species_params(a, tr.snap) for a in res["animals"]]
-    else:
-        params = case.get("_params")
-        if params is None:  # the run died inside the loop: take the parameters from a one-month probe
-            params, _ = probe(ctx, code, sc, md)
+    # if the run died inside the loop the species (and their parameters at loop start) are still known
+    params = [species_params(a, tr.snap) for a in (res["animals"] if res["animals"] is not None else tr.animals)]
     country = country_tuple(res) if tr.country is not None else (0.0, 0.5, 0.0)
     wf = wf_failures(params)
     for name, k in wf:
@@ -554,10 +556,14 @@ def main_case(ctx, case, prop, compare=True):
     if res["error"] or st == "err":
         ie, me = res["error"], (months if st == "err" else None)
         ctx.count("main:impl-error:%s/model:%s" % (ie, me))
-        if ie != me:
+        # an assert inside the month loop aborts the whole run.  Exact arithmetic cannot raise it
+        # (C06_no_error); when the model executed at Float raises the same assert it is an ulp effect
+        # of the float arithmetic (runtime note only); when only the real code raises, the run of this
+        # country/series simply does not exist: the property fails for it.
+        if ie and not me:
+            ctx.violation("main:raises-" + str(ie).split(":")[0], "main() raised (%s) for %s/%s where the model completes" % (ie, code, sc), case)
+        elif ie != me:
             ctx.disagree("run:error", short, ie, me)
-        # an assert inside the month loop aborts the whole run: exact arithmetic cannot raise it
-        # (C06_no_error), so it is a float effect unless the model (at Float) does not raise it too
         return summ
     if compare:
         nd = compare_run(ctx, "run", short, res, params, months)
